@@ -12,6 +12,7 @@ import (
 	"github.com/bufbuild/protocompile/experimental/source"
 	"github.com/bufbuild/protocompile/internal/zzverif/hx"
 	"github.com/bufbuild/protocompile/internal/zzverif/tape"
+	"github.com/bufbuild/protocompile/internal/zzverif/vsync"
 )
 
 // memOpener serves sources from memory; pointer receiver so that queries compare by identity.
@@ -44,6 +45,11 @@ func c36Workspaces() []c36ws {
 			"d.proto": hdr + "import \"e.proto\";\nmessage D { optional int32 x = 1; }\n",
 			"e.proto": hdr + "message E { optional int32 x = 1; }\n",
 		}, []string{"a.proto", "b.proto"}},
+		// a task with a self-edge (a file that imports itself) next to diagnostics of its own
+		{"self-import-with-syntax-errors", map[string]string{
+			"a.proto": hdr + "import \"a.proto\";\nimport \"b.proto\";\nmessage A { optional int32 x = ; }\nmessage A2 { optional B b = 1 }\n",
+			"b.proto": hdr + "message B { optional int32 x = 1; optional int32 y = 1; }\n",
+		}, []string{"a.proto"}},
 		{"syntax-errors", map[string]string{
 			"a.proto": hdr + "import \"b.proto\";\nmessage A { optional int32 x = ; }\nmessage A2 { optional B b = 1 }\n",
 			"b.proto": hdr + "message B { optional int32 x = 1; }\nmessage B { }\n",
@@ -52,6 +58,8 @@ func c36Workspaces() []c36ws {
 }
 
 func runC36a(h *hx.H) {
+	// the diagnostics of a run are gathered by ranging over sync.Maps of the executor
+	vsync.RangeOrderChoice = true
 	pb := 1
 	if h.Thorough() {
 		pb = 2
